@@ -90,6 +90,7 @@ class References:
     item = items.pop(idx)
     if isinstance(item.line, gfapy.Line):
       item.line._delete_reference(self, "paths")
+      self._drop_unreferenced_placeholder(item.line)
 
   def _oriented_item(self, item):
     if isinstance(item, gfapy.Line):
